@@ -9,38 +9,41 @@ spec fn data_width(data: Seq<DataEntry>) -> int
     if data.len() == 0 { 0 } else { data_width(data.drop_last()) + entry_width(data.last()) }
 }
 
+/// the predicate on columns "bound to an input-capable signal" for a binding
+spec fn inp_pred(cols: Cols) -> spec_fn(int) -> bool { |c: int| cols.col_is_input(c) }
+
 /// the source row is `w` columns wide (bits(k,.) counting k) and every C stands in a column bound to an input
-spec fn data_shape(data: Seq<DataEntry>, w: int, cols: Cols) -> bool {
+spec fn data_shape(data: Seq<DataEntry>, w: int, p: spec_fn(int) -> bool) -> bool {
     data_width(data) == w
-        && forall|i: int| 0 <= i < data.len() && (#[trigger] data[i]) == DataEntry::C ==> cols.col_is_input(data_width(data.take(i)))
+        && forall|i: int| 0 <= i < data.len() && (#[trigger] data[i]) == DataEntry::C ==> p(data_width(data.take(i)))
 }
 
 /// an evaluated row: w entries, each a number, X, Z or C, C only in input columns
-spec fn row_shape(e: Seq<DataEntry>, w: int, cols: Cols) -> bool {
+spec fn row_shape(e: Seq<DataEntry>, w: int, p: spec_fn(int) -> bool) -> bool {
     e.len() == w && forall|i: int| 0 <= i < e.len() ==>
-        ((#[trigger] e[i]) is Number || e[i] is X || e[i] is Z || (e[i] is C && cols.col_is_input(i)))
+        ((#[trigger] e[i]) is Number || e[i] is X || e[i] is Z || (e[i] is C && p(i)))
 }
 
-spec fn stmt_shape(s: Stmt, w: int, cols: Cols) -> bool
+spec fn stmt_shape(s: Stmt, w: int, p: spec_fn(int) -> bool) -> bool
     decreases s
 {
     match s {
-        Stmt::DataRow { data, line } => data_shape(data@, w, cols),
-        Stmt::Loop { variable, max, inner } => forall|i: int| 0 <= i < inner@.len() ==> stmt_shape(#[trigger] inner@[i], w, cols),
-        Stmt::While { condition, inner } => forall|i: int| 0 <= i < inner@.len() ==> stmt_shape(#[trigger] inner@[i], w, cols),
+        Stmt::DataRow { data, line } => data_shape(data@, w, p),
+        Stmt::Loop { variable, max, inner } => forall|i: int| 0 <= i < inner@.len() ==> stmt_shape(#[trigger] inner@[i], w, p),
+        Stmt::While { condition, inner } => forall|i: int| 0 <= i < inner@.len() ==> stmt_shape(#[trigger] inner@[i], w, p),
         _ => true,
     }
 }
-spec fn stmts_shape(ss: Seq<Stmt>, w: int, cols: Cols) -> bool { forall|i: int| 0 <= i < ss.len() ==> stmt_shape(#[trigger] ss[i], w, cols) }
-spec fn frame_shape(f: Frame, w: int, cols: Cols) -> bool {
+spec fn stmts_shape(ss: Seq<Stmt>, w: int, p: spec_fn(int) -> bool) -> bool { forall|i: int| 0 <= i < ss.len() ==> stmt_shape(#[trigger] ss[i], w, p) }
+spec fn frame_shape(f: Frame, w: int, p: spec_fn(int) -> bool) -> bool {
     match f {
-        Frame::Block(ss) => stmts_shape(ss, w, cols),
-        Frame::LoopEntry { var, bound, body } => stmts_shape(body, w, cols),
-        Frame::Loop { var, bound, body, counter } => stmts_shape(body, w, cols),
-        Frame::While { cond, body } => stmts_shape(body, w, cols),
+        Frame::Block(ss) => stmts_shape(ss, w, p),
+        Frame::LoopEntry { var, bound, body } => stmts_shape(body, w, p),
+        Frame::Loop { var, bound, body, counter } => stmts_shape(body, w, p),
+        Frame::While { cond, body } => stmts_shape(body, w, p),
     }
 }
-spec fn k_shape(k: Seq<Frame>, w: int, cols: Cols) -> bool { forall|i: int| 0 <= i < k.len() ==> frame_shape(#[trigger] k[i], w, cols) }
+spec fn k_shape(k: Seq<Frame>, w: int, p: spec_fn(int) -> bool) -> bool { forall|i: int| 0 <= i < k.len() ==> frame_shape(#[trigger] k[i], w, p) }
 
 proof fn lemma_entry_rel_shape(d: DataEntry, ctx: &EvalContext, out: Seq<DataEntry>)
     requires entry_rel(d, ctx, out)
@@ -50,15 +53,15 @@ proof fn lemma_entry_rel_shape(d: DataEntry, ctx: &EvalContext, out: Seq<DataEnt
 {
 }
 
-proof fn lemma_entries_rel_shape(data: Seq<DataEntry>, ctx: &EvalContext, out: Seq<DataEntry>, w: int, cols: Cols)
-    requires entries_rel(data, ctx, out), data_shape(data, w, cols)
-    ensures row_shape(out, w, cols)
+proof fn lemma_entries_rel_shape(data: Seq<DataEntry>, ctx: &EvalContext, out: Seq<DataEntry>, w: int, p: spec_fn(int) -> bool)
+    requires entries_rel(data, ctx, out), data_shape(data, w, p)
+    ensures row_shape(out, w, p)
     decreases data.len()
 {
     lemma_entries_rel_len(data, ctx, out, data.len() as int);
     assert(data.take(data.len() as int) =~= data);
     assert forall|i: int| 0 <= i < out.len() implies
-        ((#[trigger] out[i]) is Number || out[i] is X || out[i] is Z || (out[i] is C && cols.col_is_input(i))) by {
+        ((#[trigger] out[i]) is Number || out[i] is X || out[i] is Z || (out[i] is C && p(i))) by {
         lemma_entries_rel_at(data, ctx, out, i);
     }
 }
@@ -130,16 +133,16 @@ proof fn lemma_entries_rel_at(data: Seq<DataEntry>, ctx: &EvalContext, out: Seq<
 }
 
 /// steps preserve the shape invariant, and an emitted row has the shape
-proof fn lemma_step_shape(c1: Config, c2: Config, l: Label, w: int, cols: Cols)
-    requires step(c1, c2, l), k_shape(c1.k, w, cols)
-    ensures k_shape(c2.k, w, cols), l matches Label::Emit(r) ==> row_shape(r.entries, w, cols)
+proof fn lemma_step_shape(c1: Config, c2: Config, l: Label, w: int, p: spec_fn(int) -> bool)
+    requires step(c1, c2, l), k_shape(c1.k, w, p)
+    ensures k_shape(c2.k, w, p), l matches Label::Emit(r) ==> row_shape(r.entries, w, p)
 {
-    assert(frame_shape(c1.k[0], w, cols));
+    assert(frame_shape(c1.k[0], w, p));
     match c1.k[0] {
         Frame::Block(ss) => {
             if ss.len() == 0 {
-                assert(frame_shape(c1.k[1], w, cols));
-                assert forall|i: int| 0 <= i < c2.k.len() implies frame_shape(#[trigger] c2.k[i], w, cols) by {
+                assert(frame_shape(c1.k[1], w, p));
+                assert forall|i: int| 0 <= i < c2.k.len() implies frame_shape(#[trigger] c2.k[i], w, p) by {
                     match c1.k[1] {
                         Frame::Loop { var, bound, body, counter } => {
                             if counter + 1 < bound { if i >= 2 { assert(c2.k[i] == c1.k[i]); } } else { assert(c2.k[i] == c1.k[i + 2]); }
@@ -149,24 +152,24 @@ proof fn lemma_step_shape(c1: Config, c2: Config, l: Label, w: int, cols: Cols)
                     }
                 }
             } else {
-                assert(stmt_shape(ss[0], w, cols));
+                assert(stmt_shape(ss[0], w, p));
                 let rest = c1.k.update(0, Frame::Block(ss.skip(1)));
-                assert forall|i: int| 0 <= i < rest.len() implies frame_shape(#[trigger] rest[i], w, cols) by {
-                    if i == 0 { assert forall|j: int| 0 <= j < ss.skip(1).len() implies stmt_shape(#[trigger] ss.skip(1)[j], w, cols) by { assert(ss.skip(1)[j] == ss[j + 1]); } }
+                assert forall|i: int| 0 <= i < rest.len() implies frame_shape(#[trigger] rest[i], w, p) by {
+                    if i == 0 { assert forall|j: int| 0 <= j < ss.skip(1).len() implies stmt_shape(#[trigger] ss.skip(1)[j], w, p) by { assert(ss.skip(1)[j] == ss[j + 1]); } }
                     else { assert(rest[i] == c1.k[i]); }
                 }
                 match ss[0] {
                     Stmt::DataRow { data, line } => {
                         let r = l->Emit_0;
-                        lemma_entries_rel_shape(data@, &c1.ctx, r.entries, w, cols);
+                        lemma_entries_rel_shape(data@, &c1.ctx, r.entries, w, p);
                     }
                     Stmt::Loop { variable, max, inner } => {
-                        assert forall|i: int| 0 <= i < c2.k.len() implies frame_shape(#[trigger] c2.k[i], w, cols) by {
+                        assert forall|i: int| 0 <= i < c2.k.len() implies frame_shape(#[trigger] c2.k[i], w, p) by {
                             if i >= 1 { assert(c2.k[i] == rest[i - 1]); }
                         }
                     }
                     Stmt::While { condition, inner } => {
-                        assert forall|i: int| 0 <= i < c2.k.len() implies frame_shape(#[trigger] c2.k[i], w, cols) by {
+                        assert forall|i: int| 0 <= i < c2.k.len() implies frame_shape(#[trigger] c2.k[i], w, p) by {
                             if i >= 1 { assert(c2.k[i] == rest[i - 1]); }
                         }
                     }
@@ -175,12 +178,12 @@ proof fn lemma_step_shape(c1: Config, c2: Config, l: Label, w: int, cols: Cols)
             }
         }
         Frame::LoopEntry { var, bound, body } => {
-            assert forall|i: int| 0 <= i < c2.k.len() implies frame_shape(#[trigger] c2.k[i], w, cols) by {
+            assert forall|i: int| 0 <= i < c2.k.len() implies frame_shape(#[trigger] c2.k[i], w, p) by {
                 if bound <= 0 { assert(c2.k[i] == c1.k[i + 1]); } else { if i >= 2 { assert(c2.k[i] == c1.k[i - 1]); } }
             }
         }
         Frame::While { cond, body } => {
-            assert forall|i: int| 0 <= i < c2.k.len() implies frame_shape(#[trigger] c2.k[i], w, cols) by {
+            assert forall|i: int| 0 <= i < c2.k.len() implies frame_shape(#[trigger] c2.k[i], w, p) by {
                 if c2.k.len() == c1.k.len() + 1 { if i >= 1 { assert(c2.k[i] == c1.k[i - 1]); } } else { assert(c2.k[i] == c1.k[i + 1]); }
             }
         }
@@ -188,33 +191,33 @@ proof fn lemma_step_shape(c1: Config, c2: Config, l: Label, w: int, cols: Cols)
     }
 }
 
-proof fn lemma_reach_shape(c1: Config, c2: Config, n: nat, w: int, cols: Cols)
-    requires reach(c1, c2, n), k_shape(c1.k, w, cols)
-    ensures k_shape(c2.k, w, cols)
+proof fn lemma_reach_shape(c1: Config, c2: Config, n: nat, w: int, p: spec_fn(int) -> bool)
+    requires reach(c1, c2, n), k_shape(c1.k, w, p)
+    ensures k_shape(c2.k, w, p)
     decreases n
 {
     if n > 0 {
         let cm = choose|cm: Config| #[trigger] witc(cm) && step(c1, cm, Label::Silent) && reach(cm, c2, (n - 1) as nat);
-        lemma_step_shape(c1, cm, Label::Silent, w, cols);
-        lemma_reach_shape(cm, c2, (n - 1) as nat, w, cols);
+        lemma_step_shape(c1, cm, Label::Silent, w, p);
+        lemma_reach_shape(cm, c2, (n - 1) as nat, w, p);
     }
 }
 
-proof fn lemma_emits_shape(c1: Config, c2: Config, row: RowS, w: int, cols: Cols)
-    requires emits(c1, c2, row), k_shape(c1.k, w, cols)
-    ensures k_shape(c2.k, w, cols), row_shape(row.entries, w, cols)
+proof fn lemma_emits_shape(c1: Config, c2: Config, row: RowS, w: int, p: spec_fn(int) -> bool)
+    requires emits(c1, c2, row), k_shape(c1.k, w, p)
+    ensures k_shape(c2.k, w, p), row_shape(row.entries, w, p)
 {
     let (n, cm) = choose|n: nat, cm: Config| #[trigger] witn(n, cm) && reach(c1, cm, n) && step(cm, c2, Label::Emit(row));
-    lemma_reach_shape(c1, cm, n, w, cols);
-    lemma_step_shape(cm, c2, Label::Emit(row), w, cols);
+    lemma_reach_shape(c1, cm, n, w, p);
+    lemma_step_shape(cm, c2, Label::Emit(row), w, p);
 }
 
-proof fn lemma_silent_shape(c1: Config, c2: Config, w: int, cols: Cols)
-    requires silent_to(c1, c2), k_shape(c1.k, w, cols)
-    ensures k_shape(c2.k, w, cols)
+proof fn lemma_silent_shape(c1: Config, c2: Config, w: int, p: spec_fn(int) -> bool)
+    requires silent_to(c1, c2), k_shape(c1.k, w, p)
+    ensures k_shape(c2.k, w, p)
 {
     let n = choose|n: nat| #[trigger] witnn(n) && reach(c1, c2, n);
-    lemma_reach_shape(c1, c2, n, w, cols);
+    lemma_reach_shape(c1, c2, n, w, p);
 }
 
 // ---- structure invariant of DataRowIteratorTestData ----
@@ -224,7 +227,7 @@ impl<'a> DataRowIteratorTestData<'a> {
         forall|c: int| !(self.cols().col_is_input(c) && self.cols().col_is_expected(c))
     }
     spec fn cache_shape(&self, w: int) -> bool {
-        forall|k: int| 0 <= k < self.cache@.len() ==> row_shape((#[trigger] self.cache@[k]).entries@, w, self.cols())
+        forall|k: int| 0 <= k < self.cache@.len() ==> row_shape((#[trigger] self.cache@[k]).entries@, w, inp_pred(self.cols()))
     }
     /// for rows of width w
     #[verifier::prophetic]
@@ -234,7 +237,7 @@ impl<'a> DataRowIteratorTestData<'a> {
         &&& self.cache_shape(w)
         &&& (self.prev matches Some(p) ==> p@.len() == w)
         &&& self.iter.wf_iter()
-        &&& k_shape(self.iter.abs_k(), w, self.cols())
+        &&& k_shape(self.iter.abs_k(), w, inp_pred(self.cols()))
     }
     #[verifier::prophetic]
     spec fn td_inv(&self) -> bool { exists|w: int| self.td_inv_w(w) }
@@ -268,4 +271,36 @@ impl<'a> DataRowIteratorTestData<'a> {
             && fin.row_matches(row, p[0], old.prev)
             && (fin.prev matches Some(pv) && pv@ == p[0].entries))
     }
+}
+
+/// shape is monotone in the column predicate
+proof fn lemma_stmt_shape_mono(s: Stmt, w: int, p: spec_fn(int) -> bool, q: spec_fn(int) -> bool)
+    requires stmt_shape(s, w, p), forall|c: int| 0 <= c < w && p(c) ==> #[trigger] q(c)
+    ensures stmt_shape(s, w, q)
+    decreases s
+{
+    match s {
+        Stmt::DataRow { data, line } => {
+            assert forall|i: int| 0 <= i < data@.len() && (#[trigger] data@[i]) == DataEntry::C implies q(data_width(data@.take(i))) by {
+                lemma_data_width_take(data@, i);
+                lemma_data_width_take(data@, i + 1);
+                assert(entry_width(data@[i]) == 1);
+                assert(0 <= data_width(data@.take(i)) < w);
+                assert(p(data_width(data@.take(i))));
+            }
+        }
+        Stmt::Loop { variable, max, inner } => {
+            assert forall|i: int| 0 <= i < inner@.len() implies stmt_shape(#[trigger] inner@[i], w, q) by { lemma_stmt_shape_mono(inner@[i], w, p, q); }
+        }
+        Stmt::While { condition, inner } => {
+            assert forall|i: int| 0 <= i < inner@.len() implies stmt_shape(#[trigger] inner@[i], w, q) by { lemma_stmt_shape_mono(inner@[i], w, p, q); }
+        }
+        _ => {}
+    }
+}
+proof fn lemma_stmts_shape_mono(ss: Seq<Stmt>, w: int, p: spec_fn(int) -> bool, q: spec_fn(int) -> bool)
+    requires stmts_shape(ss, w, p), forall|c: int| 0 <= c < w && p(c) ==> #[trigger] q(c)
+    ensures stmts_shape(ss, w, q)
+{
+    assert forall|i: int| 0 <= i < ss.len() implies stmt_shape(#[trigger] ss[i], w, q) by { lemma_stmt_shape_mono(ss[i], w, p, q); }
 }
